@@ -21,7 +21,7 @@ TOK = ['1', '12', '31', '99', '2003', '0', '123456', '20030925', '200309251036',
        '(', ')', 'x', '٣', '\xb2', '\x00', 'inf', 'nan', 'e5', '9' * 30, '0' * 9, '10', '36', 'Z0', "'", 'ad',
        'GMT+3', 'EST-5', '10:36']
 OPTS = [{}, {'fuzzy': True}, {'fuzzy_with_tokens': True}, {'dayfirst': True, 'yearfirst': True}, {'ignoretz': True},
-        {'tzinfos': {'EST': -18000, 'x': 3600}}]
+        {'tzinfos': {'EST': -18000, 'x': 3600, 'UTC': 0, 'GMT': 0}}]
 DEFAULT = D.datetime(2003, 9, 25, 1, 2, 3, 4)
 CPU_CAP = 2.0
 
